@@ -86,6 +86,8 @@ type c07Delivery struct {
 }
 
 func runC07(sc *c07Scenario) *Violation {
+	// goroutines in goirc code that exist before this scenario starts (normally none)
+	baseline, _ := goircGoroutines()
 	tc := newTestClient(cliOpts{Flood: !sc.RateLimit, Tracking: sc.Tracking, CtxDialer: true, PingFreq: time.Duration(sc.PingFreqMS) * time.Millisecond})
 	defer tc.release()
 	bound := stallTimeout()
@@ -358,6 +360,12 @@ func runC07(sc *c07Scenario) *Violation {
 			}
 			if tc.C.Connected() {
 				return fail("cycle %d: Connected() true after DISCONNECTED", cycle)
+			}
+			// closures started by the connection carry no receiver pointer in their frames: count every
+			// goroutine that is inside goirc code against the level this scenario started from
+			if !waitCond(bound, func() bool { n, _ := goircGoroutines(); return n <= baseline }) {
+				n, dump := goircGoroutines()
+				return &Violation{Property: "C07", Msg: fmt.Sprintf("cycle %d: %d goroutines started by goirc remain after the disconnect (%d existed before the scenario)", cycle, n, baseline), Detail: dump}
 			}
 		}
 		// nothing of this connection may be delivered once DISCONNECTED was entered
